@@ -156,8 +156,10 @@ type LNFault struct {
 type ChainEv struct {
 	AtMs  int    `json:"at_ms"`
 	Chain string `json:"chain"`
-	Kind  string `json:"kind"` // mine, reorg, stall
+	Kind  string `json:"kind"` // mine, reorg, reorg-delay, reorg-hold, stall, reorg-deep-ifdown
 	N     int    `json:"n"`
+	// Node: for reorg-deep-ifdown, the node that must be down for the event to happen
+	Node int `json:"node,omitempty"`
 }
 
 type AdvMove struct {
